@@ -111,3 +111,17 @@ Lemma ex_slash : wf_sheet sh_slash = true /\ render sh_slash = tx_slash /\
 Proof. vm_compute. repeat split; reflexivity. Qed.
 Lemma ex_all : wf_sheet sh_all = true /\ render sh_all = tx_all /\ events sh_all = ev_all.
 Proof. vm_compute. repeat split; reflexivity. Qed.
+
+(* the listed finding, on the model: a `;` or a brace inside parentheses (outside strings and
+   comments) does delimit.  In  a{b:f(;);}  the declaration  b:f(;);  spans 2..9 with the value
+   f(;) = 4..8, but the scanner cuts the value at the inner `;` and match() at position 7 does not
+   answer with that declaration.  This is why parenthesised expressions of the grammar are free
+   of  ; { } . *)
+Lemma paren_delimiter_refuted :
+  scan (T "a{b:f(;);}") =
+    [mkEv Selector 0 1 1; mkEv PropertyName 2 3 3; mkEv PropertyValue 4 6 6; mkEv PropertyName 7 8 8;
+     mkEv BlockEnd 9 10 9] /\
+  css_match (T "a{b:f(;);}") 7 <> Some (mkMR true 2 9 4 8) /\
+  scan (T "a{b:f({);}") =
+    [mkEv Selector 0 1 1; mkEv Selector 2 6 6; mkEv PropertyName 7 8 8; mkEv BlockEnd 9 10 9].
+Proof. vm_compute. repeat split; try reflexivity. intro H; discriminate H. Qed.
